@@ -93,6 +93,27 @@ Theorem C10_platform_file_registry : forall up rows k,
 Proof. exact platform_numbers_spec. Qed.
 Print Assumptions C10_platform_file_registry.
 
+(* several sources (the URL list of the network case): all are scanned, the first hit in source order wins *)
+Theorem C10_first_match_sources : forall sats stream p fs,
+  sats_ok sats = true -> forallb (forallb wf_entry) fs = true -> plain p = true ->
+  read_tle sats stream p (map lines_of fs) = spec_read sats stream p (List.concat fs).
+Proof. exact first_match_sources. Qed.
+Print Assumptions C10_first_match_sources.
+
+(* with NO well-formedness hypothesis at all: the two result lines are adjacent lines of the source *)
+Theorem C10_result_lines_adjacent : forall sats d p fid a b,
+  read_tle sats d p [fid] = Found a b ->
+  exists pre l1 l2 post, fid = pre ++ l1 :: l2 :: post /\ (a, b) = (strip l1, strip l2).
+Proof. exact result_lines_adjacent. Qed.
+Print Assumptions C10_result_lines_adjacent.
+
+(* for the registry read from ANY platforms file, names are never empty: "ids have 5 characters" is
+   all that remains of sats_ok (checked by computation for the packaged file) *)
+Theorem C10_registry_sats_ok : forall up rows,
+  ids5 (read_platform_numbers up rows) = true -> sats_ok (read_platform_numbers up rows) = true.
+Proof. exact registry_sats_ok. Qed.
+Print Assumptions C10_registry_sats_ok.
+
 (* ---- the hypotheses are necessary on the faithful model ---- *)
 Theorem C10_short_id_refuted :
   exists sats p es a b,
